@@ -194,15 +194,15 @@ example : mulVec (([3, 0, 5] : List ℚ).map fun x => powers x 3) [5, 0, 1]
   (vandermonde_recovers ([3, 0, 5] : List ℚ) [5, 0, 1] (by decide) rfl).1
 
 /-- full statement for `vandermonde.Interpolate` (model `vandermondeInterpolate`, which calls the
-Gauss–Jordan model `LinAlg.solveRight`) -/
+Gauss–Jordan model `LinAlg.solveRight`); proved below as `vandermonde_interpolate_recovers` -/
 def vandermonde_interpolate_statement (F : Type) [Field F] [DecidableEq F] : Prop :=
   ∀ (xs cs : List F), xs.Nodup → xs ≠ [] → cs.length = xs.length →
     vandermondeInterpolate xs (xs.map (Poly.eval cs)) = .ok cs
 
-/-- PARTIAL: `vandermonde_interpolate_statement` relative to soundness and completeness of
-`LinAlg.solveRight` on this system (these are the Gauss–Jordan theorems of `Props/C20.lean`,
-proved separately; they enter here as hypotheses `hsound`, `hcomplete`).  What is proved here
-unconditionally is the interpolation content: `vandermonde_recovers`. -/
+/-- `vandermonde_interpolate_statement` relative to soundness and completeness of `LinAlg.solveRight`
+on this system (hypotheses `hsound`, `hcomplete`).  Kept as the lemma from which the full statement
+`vandermonde_interpolate_recovers` is obtained by discharging both hypotheses with the Gauss–Jordan
+theorems `C20.solveRight_sound` / `C20.solveRight_complete`; nothing is missing any more. -/
 theorem vandermonde_interpolate_partial (xs cs : List F) (hnd : xs.Nodup) (hne : xs ≠ [])
     (hcs : cs.length = xs.length)
     (hsound : ∀ c, solveRight (xs.map fun x => powers x xs.length) xs.length (xs.map (Poly.eval cs)) = some c →
@@ -312,21 +312,23 @@ example : ∃ c, vandermondeInterpolate ([3, 0, 5] : List ℚ) [1, 1, 4] = .ok c
 
 /-- full statement for `birkhoff.Interpolate` (on sorted nodes, with the model's determinant routine
 `LinAlg.det`): a returned coefficient list has `n` entries and satisfies every derivative
-constraint `(d/dx)^{jᵣ} p (xᵣ) = yᵣ` -/
+constraint `(d/dx)^{jᵣ} p (xᵣ) = yᵣ`; proved below as `birkhoff_cramer` (and for the unsorted public
+entry point as `birkhoff_interpolate_sound`) -/
 def birkhoff_cramer_statement (F : Type) [Field F] [DecidableEq F] : Prop :=
   ∀ (xs : List F) (js : List ℕ) (ys c : List F), js.length = xs.length → ys.length = xs.length →
     birkhoffSorted LinAlg.det xs js ys = .ok c →
     c.length = xs.length ∧
       ∀ r, r < xs.length → Poly.eval (iterDeriv (js.getD r 0) c) (xs.getD r 0) = ys.getD r 0
 
-/-- PARTIAL (Cramer's rule, `Matrix.mulVec_cramer`): if the determinant routine used by the model
+/-- (Cramer's rule, `Matrix.mulVec_cramer`; relative to an abstract determinant routine `detF`): if the determinant routine used by the model
 computes `Matrix.det` on `n × n` list matrices (hypothesis `hdet`; for `LinAlg.det` this is the
 forward-elimination theorem of `Props/C20.lean`), then whenever `birkhoff.Interpolate` (model
 `birkhoffSorted`) returns coefficients `c`, they solve the Birkhoff–Vandermonde system
 `B(xs, js) · c = ys`, whose row `r` is `(Phi(0,xᵣ,jᵣ), …, Phi(n-1,xᵣ,jᵣ))`.
-Missing for `birkhoff_cramer_statement`: `hdet` for `LinAlg.det`, and the identification of a row
-of `B` with the functional `c ↦ (d/dx)^{jᵣ} (Σ cₖ Xᵏ) (xᵣ)` (the harness/driver check that identity on
-every answer by direct evaluation instead). -/
+Kept as the lemma behind `birkhoff_cramer`, which supplies the two ingredients that were missing
+here: `hdet` for the executable `LinAlg.det` (`det_computes_matrix_det`, from
+`Lemmas/GaussJordanDet.lean`) and the identification of a row of `B` with the functional
+`c ↦ (d/dx)^{jᵣ} (Σ cₖ Xᵏ) (xᵣ)` (`Lemmas/PolyDeriv.lean`: `mulVec_birkhoffMatrix`). -/
 theorem birkhoff_cramer_partial (detF : Mat F → F) (xs : List F) (js : List ℕ) (ys c : List F)
     (hj : js.length = xs.length) (hy : ys.length = xs.length)
     (hdet : ∀ m : Mat F, m.length = xs.length → (∀ row ∈ m, row.length = xs.length) →
